@@ -72,7 +72,8 @@ theorem root_fault_keeps_flag (c : Ctx) (root : List Slot) (j : Nat) (hg : c.gra
     any kind (`.enter k` is simply a member of `pre`), and "panic" is nothing but "the callback ends
     here".  What the property asks of the state after the unwind is spelled out below:
     `after_unwind_continues` (C01, C03–C05 on every continuation), `after_unwind_exact_reclamation`
-    (C02), `failed_ctor_releases_all` (a failed owning callback). -/
+    (C02), `failed_ctor_is_drop_arena` (the drop after a failed owning callback), `after_trace_fault_continues` /
+    `after_trace_fault_exact_reclamation` (after a `trace` that unwound). -/
 theorem callback_panic_preserves_inv (n : Nat) (pre body : List Op)
     (halive : ((Arena.new n).run (pre ++ body ++ [.leave])).alive = true) :
     Inv ((Arena.new n).run (pre ++ body ++ [.leave])) :=
@@ -165,26 +166,19 @@ theorem after_unwind_exact_reclamation (n : Nat) (pre : List Op) (k : CbKind) (b
   intro a hal
   exact C02.exactness_run n _ hal (afterUnwind_cb n pre k body hal)
 
-/-- The callbacks that own the root while they run; a failure of any of them drops the arena. -/
-inductive OwningCallback where
-  | newCtorPanic      -- the constructor passed to `Arena::new` panics
-  | tryNewErr         -- the constructor passed to `Arena::try_new` returns `Err` (or panics)
-  | mapRootPanic      -- the callback of `Arena::map_root` panics
-  | tryMapRootErr     -- the callback of `Arena::try_map_root` returns `Err` (or panics)
-  deriving DecidableEq, Repr
-
-/-- How the protocol records each of them (Model/Parse.lean, harness `exec.rs`): `enter new_ctor` /
-    `try_new_err` / `map_root` / `try_map_root_err` are all `mutate_root` for the collector; the body;
-    `leave` (or `leave panic`); then `droparena` (`arena_gone`). -/
-def OwningCallback.enter : OwningCallback → Op := fun _ => .enter .mutateRoot
-
-/-- **A failed `Arena::new` / `try_new` / `map_root` / `try_map_root` releases everything.**  For
-    each of the four owning callbacks, after any history `pre` (empty for the constructors), any
-    `body` of the failing callback: once the arena has been dropped, every id ever allocated —
-    before or inside the callback — has exactly one `dropped` and exactly one `freed` event, no
-    block is allocated any more and `total_gc_count` reads zero. -/
-theorem failed_ctor_releases_all (n : Nat) (pre body : List Op) (k : OwningCallback) :
-    let a := (Arena.new n).run (pre ++ [k.enter] ++ body ++ [.leave])
+/-- **The arena drop that follows a failed owning callback releases everything** — this is
+    `C04.drop_arena` at the state a failed `mutate_root`-like callback leaves.  For the collector the
+    owning callbacks (`Arena::new` / `try_new`'s constructor, `map_root`, `try_map_root`) are
+    `mutate_root` callbacks; *that* a failing one (constructor panics, `try_new` / `try_map_root`
+    returns `Err`, `map_root` panics) drops the context is **not** part of this model: the driver
+    (Model/Parse.lean, the aliases of `enter`; harness `exec.rs::arena_gone`) records it as an explicit
+    `droparena` line, and it is the T1 correspondence with the constructor / `map_root` fault profiles
+    that validates this mapping against src/arena.rs.  What is proved: after any history `pre` (empty
+    for the constructors), any `body` of the callback, the unwind, and that drop, every id ever
+    allocated — before or inside the callback — has exactly one `dropped` and exactly one `freed`
+    event, no block is allocated any more and `total_gc_count` reads zero. -/
+theorem failed_ctor_is_drop_arena (n : Nat) (pre body : List Op) :
+    let a := (Arena.new n).run (pre ++ [.enter .mutateRoot] ++ body ++ [.leave])
     let a' := (a.step .dropArena).1
     a.alive = true →
     a'.alive = false ∧ a'.ctx.metrics.totalGcs = 0 ∧ (∀ j, a'.ctx.heap.get j = none) ∧
@@ -196,6 +190,70 @@ theorem failed_ctor_releases_all (n : Nat) (pre body : List Op) (k : OwningCallb
   refine ⟨h3, h1, h4, fun i hi => ?_⟩
   obtain ⟨hf, hd⟩ := h5 i hi
   exact ⟨by rw [List.Nodup.count h6, if_pos hd], by rw [List.Nodup.count h6, if_pos hf]⟩
+
+/-! ### After a `trace` that unwound: C01–C05 on the continued history -/
+
+private theorem collect_panic_guard {a : Arena} {m : Method} {k : Cont} {f : TraceFault}
+    {o : Option (List Micro)} (hout : (a.step (.collect m k f o)).2 = "panic") :
+    a.alive = true ∧ a.cb = none := by
+  unfold Arena.step at hout
+  split at hout
+  · simp [Arena.bad] at hout
+  · rename_i hal
+    refine ⟨by simpa using hal, ?_⟩
+    simp only [Arena.stepBody] at hout
+    split at hout
+    · simp [Arena.bad] at hout
+    · rename_i hcb
+      cases hc : a.cb with
+      | none => rfl
+      | some x => simp [hc] at hcb
+
+/-- **After a `trace` call unwound** — the collection call `collect m k (some kj) oracle` returned
+    `"panic"`: the injected fault fired, the call unwound out of `mark_one` (object re-queued by the
+    drop guard, or the root left flagged) — through every continuation `cont` the arena, while it
+    exists, satisfies the invariant, has tripped no assertion, and C01 (`not_condemned`), C04
+    (`once`), C05 (`is_dropped_exact`), C03/C04 (`nothing_unaccounted`) hold of it. -/
+theorem after_trace_fault_continues (n : Nat) (pre : List Op) (m : Method) (k : Cont) (kj : Nat × Nat)
+    (oracle : Option (List Micro)) (cont : List Op) :
+    let r := ((Arena.new n).run pre).step (.collect m k (some kj) oracle)
+    let b := r.1.run cont
+    r.2 = "panic" → b.alive = true →
+    Inv b ∧ b.ctx.err = none ∧
+    (∀ i, Accessible b i → Safe b.ctx i) ∧
+    (b.ctx.log.Nodup ∧ ∀ i, Event.freed i ∈ b.ctx.log → Event.dropped i ∈ b.ctx.log) ∧
+    (∀ i o, b.ctx.heap.get i = some o → (o.live = false ↔ Event.dropped i ∈ b.ctx.log)) ∧
+    (∀ i, i < b.ctx.heap.size → (∃ o, b.ctx.heap.get i = some o) ∨ Event.freed i ∈ b.ctx.log) := by
+  intro r b _ hal
+  have hb : b = (Arena.new n).run (pre ++ [.collect m k (some kj) oracle] ++ cont) := by
+    show (((Arena.new n).run pre).step _).1.run cont = _
+    rw [run_append, run_append]
+    rfl
+  rw [hb] at hal ⊢
+  exact ⟨inv_run n _ hal, C01.no_internal_fault n _ hal, fun i hi => C01.not_condemned n _ hal i hi,
+    C04.once n _, fun i o ho => C04.is_dropped_exact n _ i o ho, fun i hi => C04.nothing_unaccounted n _ i hi⟩
+
+/-- C02 right after the unwound `trace`: the next two `finish_cycle` calls leave undestructed exactly
+    what is strongly reachable from the root — the half-finished marking the fault left behind loses
+    no reachable value and retains no garbage. -/
+theorem after_trace_fault_exact_reclamation (n : Nat) (pre : List Op) (m : Method) (k : Cont)
+    (kj : Nat × Nat) (oracle : Option (List Micro)) :
+    let r := ((Arena.new n).run pre).step (.collect m k (some kj) oracle)
+    r.2 = "panic" →
+    let a2 := r.1.run [.collect .finishCycle .drop none none, .collect .finishCycle .drop none none]
+    a2.alive = true ∧ a2.root = r.1.root ∧
+    ∀ i, (∃ o, a2.ctx.heap.get i = some o ∧ o.live = true) ↔ StrongReach r.1 i := by
+  intro r hout
+  obtain ⟨hal, hcb⟩ := collect_panic_guard hout
+  have h : Inv ((Arena.new n).run pre) := inv_run n pre hal
+  have rel := step_collect_rel h m k (some kj) oracle
+  have hr : r.1 = (Arena.new n).run (pre ++ [.collect m k (some kj) oracle]) := by
+    show (((Arena.new n).run pre).step _).1 = _
+    rw [run_append]; rfl
+  have hal1 : r.1.alive = true := by rw [rel.alive]; exact hal
+  have hcb1 : r.1.cb = none := by rw [rel.cb]; exact hcb
+  rw [hr] at hal1 hcb1 ⊢
+  exact C02.exactness_run n _ hal1 hcb1
 
 /-! ### Non-vacuity: a fault in the middle of marking, then the cycle completes -/
 
@@ -213,13 +271,55 @@ example : ((Arena.new 2).run demo).ctx.phase = .sleep := by decide
 
 /-- A constructor that allocates two objects, links them, and then fails: everything goes. -/
 example :
-    let a := (Arena.new 1).run ([] ++ [OwningCallback.tryNewErr.enter] ++
+    let a := (Arena.new 1).run ([] ++ [.enter .mutateRoot] ++
       [.alloc true [none], .alloc true [some (.strong 0)], .rootStore 0 (some (.strong 1))] ++ [.leave])
     a.alive = true ∧ a.ctx.heap.size = 2 ∧
       ((a.step .dropArena).1.ctx.log.count (.dropped 0) = 1 ∧ (a.step .dropArena).1.ctx.log.count (.freed 0) = 1) :=
   ⟨by decide, by decide,
-    (failed_ctor_releases_all 1 [] [.alloc true [none], .alloc true [some (.strong 0)],
-      .rootStore 0 (some (.strong 1))] .tryNewErr (by decide)).2.2.2 0 (by decide)⟩
+    (failed_ctor_is_drop_arena 1 [] [.alloc true [none], .alloc true [some (.strong 0)],
+      .rootStore 0 (some (.strong 1))] (by decide)).2.2.2 0 (by decide)⟩
+
+/-- `after_unwind_continues` / `after_unwind_exact_reclamation` with a **`finalize`** callback that
+    really runs: after `demo.take 5` the arena is fully marked with the `MarkedArena` kept
+    (`finishMarking … finalize`), so `enter finalize` is accepted (`"ok"`) and its body — reads of the
+    root and of object 1, an `is_dead` query — really runs before the callback unwinds. -/
+def finalizePre : List Op := [
+  .enter .mutateRoot, .alloc true [none, none], .alloc true [some (.strong 0), none],
+  .rootStore 0 (some (.strong 1)), .leave,
+  .collect .finishMarking .finalize none none ]
+
+example : (((Arena.new 2).run finalizePre).step (.enter .finalize)).2 = "ok" := by decide
+example : ((((Arena.new 2).run (finalizePre ++ [.enter .finalize])).step (.readRoot 0)).2 = "s1") := by decide
+
+example : Inv ((afterUnwind 2 finalizePre .finalize [.readRoot 0, .read 1 0, .isDead (.strong 0)]).run
+    [.collect .finishCycle .drop none none]) :=
+  (after_unwind_continues 2 finalizePre .finalize [.readRoot 0, .read 1 0, .isDead (.strong 0)]
+    [.collect .finishCycle .drop none none] (by decide)).1
+
+example : ∃ o, ((afterUnwind 2 finalizePre .finalize [.readRoot 0, .read 1 0]).run
+    [.collect .finishCycle .drop none none, .collect .finishCycle .drop none none]).ctx.heap.get 0 = some o ∧
+      o.live = true :=
+  ((after_unwind_exact_reclamation 2 finalizePre .finalize [.readRoot 0, .read 1 0] (by decide)).2.2 0).mpr
+    (.edge 1 0 (.root 1 (by decide)) ⟨⟨.black, true, true, [some (.strong 0), none]⟩, by decide, by simp⟩)
+
+/-- The fault of `demo` fired (`"panic"`), self-driven as well as oracle-driven; the two theorems
+    about the state after it apply. -/
+example : (((Arena.new 2).run (demo.take 5)).step
+    (.collect .finishMarking .drop (some (1, 1)) (some [.wake, .markStep none, .markStep (some 1)]))).2 = "panic" := by
+  decide
+example : (((Arena.new 2).run (demo.take 5)).step (.collect .finishMarking .drop (some (1, 1)) none)).2 = "panic" := by
+  decide
+
+example : ∃ o, ((((Arena.new 2).run (demo.take 5)).step (.collect .finishMarking .drop (some (1, 1)) none)).1.run
+    [.collect .finishCycle .drop none none, .collect .finishCycle .drop none none]).ctx.heap.get 0 = some o ∧
+      o.live = true :=
+  ((after_trace_fault_exact_reclamation 2 (demo.take 5) .finishMarking .drop (1, 1) none (by decide)).2.2 0).mpr
+    (.edge 1 0 (.root 1 (by decide)) ⟨⟨.gray, true, true, [some (.strong 0), none]⟩, by decide, by simp⟩)
+
+example : Inv ((((Arena.new 2).run (demo.take 5)).step (.collect .finishMarking .drop (some (1, 1)) none)).1.run
+    [.enter .mutate, .alloc true [none], .leave, .collect .finishCycle .drop none none]) :=
+  (after_trace_fault_continues 2 (demo.take 5) .finishMarking .drop (1, 1) none
+    [.enter .mutate, .alloc true [none], .leave, .collect .finishCycle .drop none none] (by decide) (by decide)).1
 
 /-! ### The builder clause: a panicking element constructor, at every index
 
